@@ -3,6 +3,7 @@
 // if, for both accesses, the first frame that is neither a libc interceptor nor libstdc++/libc lies inside
 // librx.so (the instrumented library). Records are parked in a static table and drained by the executor.
 #include "tsan_glue.hpp"
+#include "seams.hpp"
 #include <link.h>
 #include <dlfcn.h>
 #include <stdio.h>
@@ -69,7 +70,7 @@ extern "C" void __tsan_on_report(void *report) {
 	const char *desc = nullptr; int cnt = 0, stacks = 0, mops = 0, locs = 0, mutexes = 0, threads = 0, utids = 0; void *sleep[1];
 	__tsan_get_report_data(report, &desc, &cnt, &stacks, &mops, &locs, &mutexes, &threads, &utids, sleep, 1);
 	if (!desc || strcmp(desc, "data-race") != 0 || mops < 2) { ++g_rejected; return; }
-	uintptr_t pcs[2] = {0, 0}; int wr[2] = {0, 0}, tid[2] = {0, 0}, sz[2] = {0, 0};
+	uintptr_t pcs[2] = {0, 0}; int wr[2] = {0, 0}, tid[2] = {0, 0}, sz[2] = {0, 0}, depth[2] = {0, 0};
 	void *addr0 = nullptr;
 	for (int m = 0; m < 2; ++m) {
 		void *trace[32]; memset(trace, 0, sizeof trace);
@@ -77,7 +78,19 @@ extern "C" void __tsan_on_report(void *report) {
 		__tsan_get_report_mop(report, (unsigned long)m, &tid[m], &addr, &sz[m], &wr[m], &atomic, trace, 32);
 		if (m == 0) addr0 = addr;
 		int n = 0; while (n < 32 && trace[n]) ++n;
+		depth[m] = n;
 		pcs[m] = responsible_frame(trace, n);
+	}
+	// TSan could not restore the stack of the earlier access (it left the per-thread history ring): the report is
+	// still about library state if the racy address is a librx.so global or lies in a live library-scope block and
+	// the access that does have a stack is library code. The simulator never touches such memory outside
+	// __tsan_ignore_thread_begin/end.
+	static const uintptr_t UNKNOWN_PC = 1;
+	for (int m = 0; m < 2; ++m) {
+		if (!pcs[m] && depth[m] == 0 && pcs[1 - m]) {
+			uintptr_t a = (uintptr_t)addr0;
+			if ((a >= g_lib_lo && a < g_lib_hi) || seam::in_live_library_block(addr0)) pcs[m] = UNKNOWN_PC;
+		}
 	}
 	if (!pcs[0] || !pcs[1]) {
 		++g_rejected;
@@ -109,8 +122,10 @@ extern "C" void __tsan_on_report(void *report) {
 	int n = g_nrec;
 	if (n >= MAX_RECORDS) return;
 	// pc - 1: report frames are return-address style for callers, access pc for frame 0; symbolisation uses the containing function
-	snprintf(g_rec[n].sig, sizeof g_rec[n].sig, "race lib+0x%lx(%s%d) lib+0x%lx(%s%d) %s", (unsigned long)(pcs[a] - g_lib_lo), wr[a] ? "w" : "r", sz[a],
-	         (unsigned long)(pcs[b] - g_lib_lo), wr[b] ? "w" : "r", sz[b], loc);
+	char pa[48], pb[48];
+	if (pcs[a] == UNKNOWN_PC) snprintf(pa, sizeof pa, "unknown-stack"); else snprintf(pa, sizeof pa, "lib+0x%lx(%s%d)", (unsigned long)(pcs[a] - g_lib_lo), wr[a] ? "w" : "r", sz[a]);
+	if (pcs[b] == UNKNOWN_PC) snprintf(pb, sizeof pb, "unknown-stack"); else snprintf(pb, sizeof pb, "lib+0x%lx(%s%d)", (unsigned long)(pcs[b] - g_lib_lo), wr[b] ? "w" : "r", sz[b]);
+	snprintf(g_rec[n].sig, sizeof g_rec[n].sig, "race %s %s %s", pa, pb, loc);
 	g_nrec = n + 1;
 }
 
